@@ -10,7 +10,7 @@ from __future__ import annotations
 
 import ast
 
-from ..boolguard import dedup_guard_rule
+from ..boolguard import dedup_guard_rule, post_mark_rule
 from ..model import norm
 from ..paths import all_paths
 from ..seqrules import atoms, commits_after_synthetic, path_infos, shape
@@ -74,6 +74,7 @@ def run(ctx, rep) -> None:
     rep.undecided += ["outcome equality under every permutation / duplication of deliveries", "at most once per loop iteration beyond the claim CAS (C04)"]
     rep.assumptions += ["the status guard is evaluated on an entity re-read from the store in the same activation (checked: own-entity origin)"]
     dedup_guard_rule(ctx, rep, "C02.R1")
+    post_mark_rule(ctx, rep, "C02.R1")
     # T-WHO: handler.handle( callers
     callers = []
     for f in prog.all_functions():
